@@ -9,6 +9,7 @@ import (
 
 	"verif/internal/fakeredis"
 
+	"github.com/mgtv-tech/redis-GunYu/config"
 	"github.com/mgtv-tech/redis-GunYu/pkg/redis/checkpoint"
 )
 
@@ -132,10 +133,21 @@ func EnumerateSubsets(r *rand.Rand, runID string, snap *Snap, recs []Rec, report
 
 // Surviving extracts the stored frontier and the surviving journal records (those reachable
 // through the index, as recovery finds them) from a bookkeeping state.
-func Surviving(m *fakeredis.Server) (snap *Snap, recs []Rec) {
+func Surviving(m *fakeredis.Server, runID string) (snap *Snap, recs []Rec) {
 	m.With(func(dbs []fakeredis.DB) {
 		db := dbs[0]
+		// the namespace the checkpoint hash points at (a migration may have left an older one behind)
+		ns := ""
+		if h := db[config.CheckpointKeyHashKey]; h != nil && h.Kind == fakeredis.KHash {
+			ns = string(h.Hash[runID])
+		}
+		if ns == "" {
+			return
+		}
 		for k, o := range db {
+			if !strings.Contains(k, ns) {
+				continue
+			}
 			switch ClassOf([]byte(k)) {
 			case KFrontier:
 				if o.Kind == fakeredis.KHash && len(o.Hash) > 0 {
@@ -154,5 +166,35 @@ func Surviving(m *fakeredis.Server) (snap *Snap, recs []Rec) {
 		}
 	})
 	sort.Slice(recs, func(i, j int) bool { return recs[i].Seq < recs[j].Seq })
+	return
+}
+
+// NamespaceSeed reads, from a bookkeeping state, the mode recorded for the namespace the
+// checkpoint hash points at and whether that namespace holds what a migration to the other
+// recovery family is seeded from (sync: a latest record; pipeline/parallel: a frontier, or a
+// journal that starts at sequence number 1).
+func NamespaceSeed(m *fakeredis.Server, runID string) (mode string, seed bool) {
+	m.With(func(dbs []fakeredis.DB) {
+		db := dbs[0]
+		ns := ""
+		if h := db[config.CheckpointKeyHashKey]; h != nil && h.Kind == fakeredis.KHash {
+			ns = string(h.Hash[runID])
+		}
+		if root := db[ns]; ns != "" && root != nil && root.Kind == fakeredis.KHash {
+			mode = string(root.Hash["bisync_mode"])
+		}
+		if mode == "sync" {
+			for k, o := range db {
+				if strings.Contains(k, ns) && ClassOf([]byte(k)) == KLatest && o.Kind == fakeredis.KHash && len(o.Hash) > 0 {
+					seed = true
+				}
+			}
+		}
+	})
+	if mode == "pipeline" || mode == "parallel" {
+		snap, recs := Surviving(m, runID)
+		seq, _, ok := RefFrontier(snap, recs)
+		seed = ok && seq > 0
+	}
 	return
 }
